@@ -1041,6 +1041,56 @@ def _wrapping_abs(m, c):
     return x if x == rng[0] else abs(x)
 
 
+
+def _int_ty(m, c):
+    t = c.argtys[0] if c.argtys else None
+    while t is not None and t.k == "ref":
+        t = t.args[0]
+    return m.int_range(t)
+
+
+def _arith(op, a, b):
+    a, b = (iz(a) if is_sym(a) or is_sym(b) else a), (iz(b) if is_sym(a) or is_sym(b) else b)
+    return a + b if op == "add" else a - b if op == "sub" else a * b
+
+
+@model("usize::saturating_sub", "u8::saturating_sub", "u16::saturating_sub", "u32::saturating_sub", "u64::saturating_sub", "isize::saturating_sub", "i8::saturating_sub", "i16::saturating_sub", "i32::saturating_sub", "i64::saturating_sub", "usize::saturating_add", "u8::saturating_add", "u16::saturating_add", "u32::saturating_add", "u64::saturating_add", "isize::saturating_add", "i8::saturating_add", "i16::saturating_add", "i32::saturating_add", "i64::saturating_add")
+def _saturating(m, c):
+    op = "sub" if c.cal.method.endswith("_sub") else "add"
+    lo, hi = _int_ty(m, c)
+    r = _arith(op, c.args[0], c.args[1])
+    if is_sym(r):
+        return z3.If(r < lo, z3.IntVal(lo), z3.If(r > hi, z3.IntVal(hi), r))
+    return min(max(r, lo), hi)
+
+
+@model("usize::wrapping_sub", "u8::wrapping_sub", "u16::wrapping_sub", "u32::wrapping_sub", "u64::wrapping_sub", "isize::wrapping_sub", "i8::wrapping_sub", "i16::wrapping_sub", "i32::wrapping_sub", "i64::wrapping_sub", "usize::wrapping_add", "u8::wrapping_add", "u16::wrapping_add", "u32::wrapping_add", "u64::wrapping_add", "isize::wrapping_add", "i8::wrapping_add", "i16::wrapping_add", "i32::wrapping_add", "i64::wrapping_add", "usize::wrapping_mul", "u8::wrapping_mul", "u16::wrapping_mul", "u32::wrapping_mul", "u64::wrapping_mul", "isize::wrapping_mul", "i8::wrapping_mul", "i16::wrapping_mul", "i32::wrapping_mul", "i64::wrapping_mul")
+def _wrapping(m, c):
+    op = c.cal.method.rsplit("_", 1)[1]
+    lo, hi = _int_ty(m, c)
+    r = _arith(op, c.args[0], c.args[1])
+    n = hi - lo + 1
+    if is_sym(r):
+        return (r - lo) % n + lo
+    return (r - lo) % n + lo
+
+
+@model("usize::checked_sub", "u8::checked_sub", "u16::checked_sub", "u32::checked_sub", "u64::checked_sub", "isize::checked_sub", "i8::checked_sub", "i16::checked_sub", "i32::checked_sub", "i64::checked_sub", "usize::checked_add", "u8::checked_add", "u16::checked_add", "u32::checked_add", "u64::checked_add", "isize::checked_add", "i8::checked_add", "i16::checked_add", "i32::checked_add", "i64::checked_add", "usize::checked_mul", "u8::checked_mul", "u16::checked_mul", "u32::checked_mul", "u64::checked_mul", "isize::checked_mul", "i8::checked_mul", "i16::checked_mul", "i32::checked_mul", "i64::checked_mul")
+def _checked(m, c):
+    op = c.cal.method.rsplit("_", 1)[1]
+    lo, hi = _int_ty(m, c)
+    r = _arith(op, c.args[0], c.args[1])
+    inside = z3.And(r >= lo, r <= hi) if is_sym(r) else (lo <= r <= hi)
+    return some(r) if m.decide(inside) else NONE
+
+
+@model("usize::abs_diff", "u8::abs_diff", "u16::abs_diff", "u32::abs_diff", "u64::abs_diff", "isize::abs_diff", "i8::abs_diff", "i16::abs_diff", "i32::abs_diff", "i64::abs_diff")
+def _abs_diff(m, c):
+    r = _arith("sub", c.args[0], c.args[1])
+    if is_sym(r):
+        return z3.If(r >= 0, r, -r)
+    return abs(r)
+
 # ------------------------------------------------------------------ statrs
 @model("Normal::new")
 def _normal_new(m, c):
